@@ -419,6 +419,21 @@ func corpus(prop string) ([]Input, []string) {
 		}
 		add("simultaneous-16", Input{Level: "bare", Init: "DEPLOYED", Hooks: many,
 			Ops: []Op{{Ev: "CONFIGURE", Fail: all}, {Ev: "CONFIGURE", Fail: all[:3]}, {Ev: "CONFIGURE", Fail: all[:2]}, {Ev: "CONFIGURE"}}})
+		// the same point hit again and again: Calls.AwaitAll collects the failures of all calls of
+		// one await point in parallel (regression guard for the AwaitAll mutex, fix C09-a)
+		var crowd []Hook
+		var crowdIds []int
+		for i := 1; i <= 32; i++ {
+			crowd = append(crowd, Hook{Id: i, Kind: "call", Trig: "before_CONFIGURE", Await: "before_CONFIGURE", Crit: true})
+			crowdIds = append(crowdIds, i)
+		}
+		for k := 0; k < 4; k++ {
+			var ops []Op
+			for j := 0; j < 12; j++ {
+				ops = append(ops, Op{Ev: "CONFIGURE", Fail: crowdIds})
+			}
+			add("simultaneous-32-repeated", Input{Level: "bare", Init: "DEPLOYED", Hooks: crowd, Ops: ops})
+		}
 	case "C10":
 		add("witness-forced-error", Input{Level: "bare", Init: "CONFIGURED", Hooks: []Hook{
 			{Id: 1, Kind: "call", Trig: "before_GO_ERROR-1", Await: "before_GO_ERROR-1", Crit: true}},
